@@ -529,8 +529,22 @@ func c17Header() []byte {
 	return c17HeaderBytes
 }
 
+// seasonedReadBuf: a ReadBuf that began life over a long input and has been read
+// from, as the one a long-running consumer Resets for every message has.
+func seasonedReadBuf() *avro.ReadBuf {
+	long := make([]byte, 96)
+	for i := range long {
+		long[i] = 0x02
+	}
+	r := avro.NewReadBuf(long)
+	for i := 0; i < 5; i++ {
+		_, _ = r.Varint()
+	}
+	return r
+}
+
 func runC17Case(c c17Case) error {
-	r := avro.NewReadBuf(nil)
+	r := seasonedReadBuf()
 	if c.Codec == "varint" {
 		_, err := checkCandidate(r, c.Bytes)
 		return err
@@ -557,9 +571,14 @@ func TestC17Varints(t *testing.T) {
 	col := stats.New("C17")
 	col.Rule = c17Rule
 	defer col.Flush()
-	r := avro.NewReadBuf(nil)
+	r := seasonedReadBuf()
 	try := func(b []byte) {
-		rej, err := checkCandidate(r, b)
+		var rej bool
+		err := protect(func() error {
+			var e error
+			rej, e = checkCandidate(r, b)
+			return e
+		})
 		if err != nil {
 			failCase(t, "C17", "c17", c17Case{Codec: "varint", Bytes: append([]byte(nil), b...)}, err)
 		}
@@ -588,7 +607,12 @@ func TestC17Varints(t *testing.T) {
 				b[i] |= 0x80
 			}
 		}
-		rej, err := checkCandidate(r, b)
+		var rej bool
+		err := protect(func() error {
+			var e error
+			rej, e = checkCandidate(r, b)
+			return e
+		})
 		if err != nil {
 			failCase(rt, "C17", "c17", c17Case{Codec: "varint", Bytes: b}, err)
 		}
